@@ -42,6 +42,8 @@ type harness struct {
 	perClass map[string]int
 }
 
+const obPrevalidated = "oracle: a document validated with all features and executed under F (Request.Document) never reaches a gated resolver"
+
 const (
 	obOracle    = "oracle: response(S,F,q) == response(erase(S,F), all features, q); equal resolver logs; no gated resolver invoked"
 	obAccepted  = "correspondence: model Accepted(S) == real schema.New verdict"
@@ -608,6 +610,22 @@ func (h *harness) checkSpec(spec *Spec, r *hx.Rand, nDocs int, sample bool) {
 			if h.model != nil && q.Kind == "doc" {
 				h.tieWalk(env, spec, F, q, a)
 			}
+			if q.Kind == "doc" && what == "" && !rootHidden(spec, F) {
+				if log, ok := runPrevalidated(env.full, env.fullW, env.all, F, q); ok {
+					run.Count("doc:prevalidated-with-all-features")
+					g := gatedCalls(origX, fset(F), log)
+					w2 := ""
+					if len(g) > 0 {
+						w2 = fmt.Sprintf("gated resolver invoked under F=%v by a document validated with all features: %v", F, g)
+						c := &Case{Spec: spec.clone(), F: F, Query: *q, Respect: respect, Seed: seed, Doc: q.doc, Via: "prevalidated"}
+						h.perClass["prevalidated"]++
+						if h.perClass["prevalidated"] <= 2 {
+							run.Violate("property", w2, "", false, c)
+						}
+					}
+					run.Oblige(obPrevalidated, "oracle", 1, w2 == "", w2)
+				}
+			}
 			if q.Kind == "doc" {
 				switch {
 				case a.Panic != "":
@@ -802,6 +820,23 @@ func (h *harness) replayCase(c *Case, verbose bool) (what string) {
 	}
 	if c.Via == "api" {
 		return h.replayAPI(c, verbose)
+	}
+	if c.Via == "prevalidated" {
+		env, err := newPairEnv(c.Spec, c.F)
+		if err != nil {
+			return "cannot build: " + err.Error()
+		}
+		env.fullW.respect, env.fullW.seed = c.Respect, c.Seed
+		q := c.Query
+		log, ok := runPrevalidated(env.full, env.fullW, env.all, c.F, &q)
+		g := gatedCalls(env.origX, fset(c.F), log)
+		if verbose {
+			fmt.Printf("schema:\n%s\nfeatures: %v\nquery: %s\nvalid with all features: %v\nresolver log under F: %v\ngated: %v\n", canonSpec(env.origX), c.F, q.Text, ok, log, g)
+		}
+		if len(g) > 0 {
+			return fmt.Sprintf("gated resolver invoked under F=%v by a document validated with all features: %v", c.F, g)
+		}
+		return ""
 	}
 	env, err := newPairEnv(c.Spec, c.F)
 	if err != nil {
